@@ -348,6 +348,7 @@ func checkC04(r *Report, known []Finding) {
 		}
 	}
 	r.Extra["tie_inconclusive_api_equals_regexp"] = inc
+	c04MetaFindAllTie(r) // the loops inside the meta engine (meta/findall.go: streaming, direct DFA branch, Count, FindAllSubmatch) vs Cx.MetaFindAll and regexp
 	replayKnownExamples(r, known, "C04")
 }
 
